@@ -141,11 +141,12 @@ def run_cases(ck: Check, n: int):
             ck.count(f"special.{special}")
         base = Emulsion(drops).get_phasefield(grid).data
         if i >= 0:
-            a, b = rng.choice([(1.0, 0.0), (1.0, 0.0), (2.5, -1.0), (0.3, 4.0)])
+            a, b = [(1.0, 0.0), (2.5, -1.0), (1.0, 0.0), (0.3, 4.0)][(i // 5) % 4] if i % 2 == 0 else rng.choice([(1.0, 0.0), (1.0, 0.0), (2.5, -1.0), (0.3, 4.0)])
         field = ScalarField(grid, a * base + b)
         vmin, vmax = b, a + b
         if i >= 0:
-            rule = rng.choice(["auto", "extrema", "mean", "otsu", (vmin + vmax) / 2])
+            # every threshold rule meets every intensity map (cycled, not drawn: "otsu on a mapped image" must occur in every run)
+            rule = ["auto", "extrema", "mean", "otsu", (vmin + vmax) / 2][i % 5]
             levels = rng.choice(["given", "fitted-given", "fitted-auto"]) if (a, b) != (1.0, 0.0) else rng.choice(["default", "given", "fitted-given", "fitted-auto"])
         rargs = {"default": SHARED_DEFAULT, "given": dict(vmin=vmin, vmax=vmax), "fitted-given": dict(vmin=vmin, vmax=vmax, adjust_values=True),
                  "fitted-auto": SHARED_FITTED}[levels]
@@ -157,6 +158,13 @@ def run_cases(ck: Check, n: int):
         ck.count(f"grid.{gname}")
         ck.count(f"levels.{levels}")
         ck.count(f"threshold.{rule if isinstance(rule, str) else 'number'}")
+        if i >= 0 and i % 7 == 2:
+            # a quick preview with a coarse tolerance first, as a user would do: the analysis proper must not inherit it
+            try:
+                locate_droplets(field, threshold=rule, refine=True, refine_args={"tolerance": 0.1})
+            except Exception:  # noqa: BLE001  (judged by C09)
+                pass
+            ck.count("preview_with_coarse_tolerance_first")
         try:
             found = locate_droplets(field, threshold=rule, refine=True, refine_args=rargs)
         except Exception as e:  # noqa: BLE001
